@@ -1587,8 +1587,8 @@ impl StorageEngine {
                             result.truncate(n);
                             result
                         } else {
-                            let n = (-count) as usize;
-                            let mut result = Vec::with_capacity(n);
+                            let n = count.unsigned_abs() as usize;
+                            let mut result = Vec::new();
                             for _ in 0..n {
                                 if let Some(member) = members.choose(&mut rng) {
                                     result.push(member.clone());
